@@ -62,7 +62,11 @@ func runBounds(r *Run, rc *RuleCtx, fns []*ssa.Function, jt *justTable, sums map
 				rc.Obligation(true, false)
 				continue
 			}
-			if je := jt.match(rc.rr.ID, fnName(fn), ob.Canon); je != nil {
+			goalKind := failed
+			if i := strings.Index(goalKind, " i.e. "); i >= 0 {
+				goalKind = goalKind[:i]
+			}
+			if je := jt.match(rc.rr.ID, fnName(fn), rootFieldOf(ob.Base)+"|"+goalKind); je != nil {
 				rc.Instance(key, true, map[string]interface{}{"fn": fnName(fn), "site": ob.Desc, "justified": je.Reason})
 				rc.Obligation(false, true)
 				continue
@@ -948,4 +952,35 @@ func cookieRoot(fn *ssa.Function) ssa.Value {
 		}
 	})
 	return root
+}
+
+// rootFieldOf: "Type.field" of the struct field a slice value is (a re-slice of) a load of; "" otherwise.
+func rootFieldOf(v ssa.Value) string {
+	for i := 0; i < 8; i++ {
+		switch x := v.(type) {
+		case *ssa.Slice:
+			v = x.X
+			continue
+		case *ssa.ChangeType:
+			v = x.X
+			continue
+		case *ssa.UnOp:
+			if x.Op == token.MUL {
+				if fa, ok := x.X.(*ssa.FieldAddr); ok {
+					if fv := fieldOfAddr(fa); fv != nil {
+						tn := "?"
+						if pt, ok := fa.X.Type().Underlying().(*types.Pointer); ok {
+							if n, ok := pt.Elem().(*types.Named); ok {
+								tn = n.Obj().Name()
+							}
+						}
+						return tn + "." + fv.Name()
+					}
+				}
+			}
+			return ""
+		}
+		return ""
+	}
+	return ""
 }
